@@ -141,6 +141,189 @@ let pid_case (line : string) : string =
       Printf.sprintf "n=%d dups=0 worddups=0 wordsum=%d" k !sum
   | _ -> failwith "bad pid case"
 
+(* ---- terms: text format shared with the Rust harness ---- *)
+let int64_of_n (x : n) : int64 =
+  match x with N0 -> 0L | Npos p ->
+    let rec go p = match p with XH -> 1L | XO q -> Int64.shift_left (go q) 1 | XI q -> Int64.logor (Int64.shift_left (go q) 1) 1L in go p
+let udec_of_n (x : n) : string = Printf.sprintf "%Lu" (int64_of_n x)
+let z_of_dec (s : string) : z =
+  if String.length s > 0 && s.[0] = '-' then
+    (match n_of_dec (String.sub s 1 (String.length s - 1)) with N0 -> Z0 | Npos p -> Zneg p)
+  else (match n_of_dec s with N0 -> Z0 | Npos p -> Zpos p)
+let dec_of_z (x : z) : string =
+  match x with Z0 -> "0" | Zpos p -> udec_of_n (Npos p) | Zneg p -> "-" ^ udec_of_n (Npos p)
+
+type toks = { mutable l : string list }
+let next t = match t.l with x :: r -> t.l <- r; x | [] -> failwith "token"
+let rd_loc t = let s = next t in if s = "-" then None else Some (bytes_of_hex s)
+let rd_pid t =
+  let node = bytes_of_hex (next t) in
+  let id = n_of_dec (next t) in let ser = n_of_dec (next t) in let cr = n_of_dec (next t) in
+  let loc = rd_loc t in
+  { pnode = node; pnum = id; pserial = ser; pcreation = cr; ploc = loc }
+let rec rd_term (kc : term -> term -> comparison) (t : toks) : term =
+  let rec many n = if n = 0 then [] else let x = rd_term kc t in x :: many (n - 1) in
+  match next t with
+  | "a" -> TAtom (bytes_of_hex (next t))
+  | "i" -> TInt (z_of_dec (next t))
+  | "f" -> TFloat (n_of_hex (next t))
+  | "p" -> TPid (rd_pid t)
+  | "o" -> let node = bytes_of_hex (next t) in let id = n_of_dec (next t) in let cr = n_of_dec (next t) in
+           let loc = rd_loc t in TPort (node, id, cr, loc)
+  | "r" -> let node = bytes_of_hex (next t) in let cr = n_of_dec (next t) in let n = int_of_string (next t) in
+           let ids = List.init n (fun _ -> n_of_dec (next t)) in let loc = rd_loc t in TRef (node, cr, ids, loc)
+  | "b" -> TBin (bytes_of_hex (next t))
+  | "B" -> let b = bytes_of_hex (next t) in let k = n_of_dec (next t) in TBitBin (b, k)
+  | "s" -> TStr (bytes_of_hex (next t))
+  | "l" -> let n = int_of_string (next t) in TList (many n)
+  | "L" -> let n = int_of_string (next t) in let l = many n in let tl = rd_term kc t in TImproper (l, tl)
+  | "m" -> let n = int_of_string (next t) in
+           let rec kvs n = if n = 0 then [] else let k = rd_term kc t in let v = rd_term kc t in (k, v) :: kvs (n - 1) in
+           TMap (map_of_list kc (kvs n))
+  | "t" -> let n = int_of_string (next t) in TTuple (many n)
+  | "g" -> let neg = next t = "1" in TBig (neg, bytes_of_hex (next t))
+  | "e" -> let m = bytes_of_hex (next t) in let f = bytes_of_hex (next t) in TExtFun (m, f, n_of_dec (next t))
+  | "u" -> let ar = n_of_dec (next t) in let uniq = bytes_of_hex (next t) in let idx = n_of_dec (next t) in
+           let nf = n_of_dec (next t) in let m = bytes_of_hex (next t) in let oi = n_of_dec (next t) in
+           let ou = n_of_dec (next t) in let p = rd_pid t in let n = int_of_string (next t) in
+           TIntFun (ar, uniq, idx, nf, m, oi, ou, p, many n)
+  | "n" -> TNil
+  | x -> failwith ("bad term token " ^ x)
+let show_loc = function None -> "-" | Some b -> hex_of_bytes b
+let show_pid p = Printf.sprintf "%s %s %s %s %s" (hex_of_bytes p.pnode) (udec_of_n p.pnum) (udec_of_n p.pserial) (udec_of_n p.pcreation) (show_loc p.ploc)
+let rec show_term (b : Buffer.t) (t : term) : unit =
+  let add = Buffer.add_string b in
+  let many l = List.iter (fun x -> add " "; show_term b x) l in
+  match t with
+  | TAtom a -> add ("a " ^ hex_of_bytes a)
+  | TInt z -> add ("i " ^ dec_of_z z)
+  | TFloat x -> add (Printf.sprintf "f %016Lx" (int64_of_n x))
+  | TPid p -> add ("p " ^ show_pid p)
+  | TPort (n, i, c, l) -> add (Printf.sprintf "o %s %s %s %s" (hex_of_bytes n) (udec_of_n i) (udec_of_n c) (show_loc l))
+  | TRef (n, c, ids, l) -> add (Printf.sprintf "r %s %s %d" (hex_of_bytes n) (udec_of_n c) (List.length ids));
+      List.iter (fun i -> add (" " ^ udec_of_n i)) ids; add (" " ^ show_loc l)
+  | TBin x -> add ("b " ^ hex_of_bytes x)
+  | TBitBin (x, k) -> add (Printf.sprintf "B %s %s" (hex_of_bytes x) (udec_of_n k))
+  | TStr x -> add ("s " ^ hex_of_bytes x)
+  | TList l -> add (Printf.sprintf "l %d" (List.length l)); many l
+  | TImproper (l, tl) -> add (Printf.sprintf "L %d" (List.length l)); many l; add " "; show_term b tl
+  | TMap kvs -> add (Printf.sprintf "m %d" (List.length kvs)); List.iter (fun (k, v) -> add " "; show_term b k; add " "; show_term b v) kvs
+  | TTuple l -> add (Printf.sprintf "t %d" (List.length l)); many l
+  | TBig (neg, d) -> add (Printf.sprintf "g %d %s" (if neg then 1 else 0) (hex_of_bytes d))
+  | TExtFun (m, f, a) -> add (Printf.sprintf "e %s %s %s" (hex_of_bytes m) (hex_of_bytes f) (udec_of_n a))
+  | TIntFun (ar, uniq, idx, nf, m, oi, ou, p, fr) ->
+      add (Printf.sprintf "u %s %s %s %s %s %s %s %s %d" (udec_of_n ar) (hex_of_bytes uniq) (udec_of_n idx) (udec_of_n nf)
+             (hex_of_bytes m) (udec_of_n oi) (udec_of_n ou) (show_pid p) (List.length fr)); many fr
+  | TNil -> add "n"
+let term_str t = let b = Buffer.create 256 in show_term b t; Buffer.contents b
+let term_of_string kc (s : string) : term = rd_term kc { l = words s }
+
+(* ---- oracles handed to the decoder model ---- *)
+let rust_float_text (txt : n list) : n option =
+  let s = String.init (List.length txt) (fun i -> Char.chr (int_of_n (List.nth txt i))) in
+  let lower = String.lowercase_ascii s in
+  let body = if String.length lower > 0 && (lower.[0] = '+' || lower.[0] = '-') then String.sub lower 1 (String.length lower - 1) else lower in
+  let is_digit c = c >= '0' && c <= '9' in
+  let ok =
+    if body = "inf" || body = "infinity" || body = "nan" then true
+    else begin
+      (* digits [. digits] [e [+-] digits], at least one digit in the mantissa *)
+      let n = String.length body in
+      let i = ref 0 in
+      let d1 = ref 0 in
+      while !i < n && is_digit body.[!i] do incr i; incr d1 done;
+      let d2 = ref 0 in
+      if !i < n && body.[!i] = '.' then begin incr i; while !i < n && is_digit body.[!i] do incr i; incr d2 done end;
+      let mant_ok = !d1 + !d2 > 0 in
+      let exp_ok =
+        if !i < n && body.[!i] = 'e' then begin
+          incr i;
+          if !i < n && (body.[!i] = '+' || body.[!i] = '-') then incr i;
+          let d3 = ref 0 in
+          while !i < n && is_digit body.[!i] do incr i; incr d3 done;
+          !d3 > 0 end
+        else true in
+      mant_ok && exp_ok && !i = n end in
+  if not ok then None
+  else (try Some (n_of_hex (Printf.sprintf "%016Lx" (Int64.bits_of_float (float_of_string s)))) with _ -> None)
+
+let rec is_prefix (p : n list) (l : n list) : bool =
+  match p, l with [], _ -> true | x :: r, y :: s -> x = y && is_prefix r s | _ :: _, [] -> false
+
+let mk_cfg arms (ztab : (n list * n list * n) list) cache : dcfg =
+  { d_arms = arms; d_cache = cache;
+    d_inflate = (fun rest -> match List.find_opt (fun (c, _, _) -> is_prefix c rest) ztab with
+                           | Some (_, plain, consumed) -> Some (plain, consumed) | None -> None);
+    d_float_text = rust_float_text; d_kcmp = cmp_owned; d_kinsert = map_insert }
+
+let rec parse_ztab (ws : string list) = match ws with
+  | "Z" :: c :: p :: k :: r -> (bytes_of_hex c, bytes_of_hex p, n_of_dec k) :: parse_ztab r
+  | _ -> []
+
+let dkind_str = function KEof -> "eof" | KTag -> "tag" | KVerify -> "verify" | KTooLarge -> "toolarge"
+  | KChar -> "char" | KFloat -> "float" | KFail -> "fail" | KFuel -> "FUEL"
+let dres_str = function
+  | DOk t -> "ok " ^ term_str t | DErr k -> "err " ^ dkind_str k
+  | DTrailing n -> "err trailing:" ^ udec_of_n n | DVersion -> "err tag"
+let eerr_str = function EAtomTooLarge -> "AtomTooLarge" | EBinaryTooLarge -> "BinaryTooLarge" | EListTooLarge -> "ListTooLarge"
+  | EMapTooLarge -> "MapTooLarge" | ETupleTooLarge -> "TupleTooLarge" | EReferenceTooLarge -> "ReferenceTooLarge"
+
+let codec_case (line : string) : string =
+  let op, rest = match String.index_opt line ' ' with
+    | Some i -> String.sub line 0 i, String.sub line (i+1) (String.length line - i - 1) | None -> line, "" in
+  match op with
+  | "enc" -> (match encode (term_of_string cmp_owned rest) with
+              | EOk b -> "ok " ^ hex_of_bytes b ^ " w=same" | EErr e -> "err " ^ eerr_str e)
+  | "rt" ->
+      (match encode (term_of_string cmp_owned rest) with
+       | EErr e -> "enc=err:" ^ eerr_str e
+       | EOk b ->
+         let cfg = mk_cfg owned_arms [] [] in
+         (match decode cfg b with
+          | DOk d ->
+              let re = (match encode d with EOk b2 -> if b2 = b then "same" else hex_of_bytes b2 | EErr e -> "err:" ^ eerr_str e) in
+              Printf.sprintf "enc=%s ; dec=%s ; re=%s" (hex_of_bytes b) (term_str d) re
+          | DErr k -> Printf.sprintf "enc=%s ; dec=err:%s" (hex_of_bytes b) (dkind_str k)
+          | DTrailing n -> Printf.sprintf "enc=%s ; dec=err:trailing:%s" (hex_of_bytes b) (udec_of_n n)
+          | DVersion -> Printf.sprintf "enc=%s ; dec=err:tag" (hex_of_bytes b)))
+  | "dec" -> (match words rest with
+              | h :: tl -> dres_str (decode (mk_cfg owned_arms (parse_ztab tl) []) (bytes_of_hex h))
+              | [] -> dres_str (decode (mk_cfg owned_arms [] []) []))
+  | "decb" -> (match words rest with
+               | h :: tl ->
+                   let data = bytes_of_hex h in
+                   let b = (match decode (mk_cfg borrowed_arms [] []) data with
+                            | DOk t -> "ok " ^ term_str t | DErr k -> "err " ^ dkind_str k ^ "@in"
+                            | DTrailing n -> "err trailing:" ^ udec_of_n n ^ "@in" | DVersion -> "err tag@in") in
+                   let o = dres_str (decode (mk_cfg owned_arms (parse_ztab tl) []) data) in
+                   Printf.sprintf "b=%s ; o=%s" b o
+               | [] -> failwith "decb")
+  | "conv" -> (match words rest with
+               | [_ops; h] ->
+                   (match decode (mk_cfg owned_arms [] []) (bytes_of_hex h) with
+                    | DOk t -> (match encode t with EOk b -> "ok " ^ hex_of_bytes b | EErr e -> "ok err:" ^ eerr_str e)
+                    | r -> dres_str r)
+               | _ -> failwith "conv")
+  | _ -> failwith "bad codec op"
+
+(* ---- domain ord ---- *)
+let cmp_str = function Lt -> "lt" | Eq -> "eq" | Gt -> "gt"
+let split_bar (s : string) : string * string =
+  let n = String.length s in
+  let rec find i = if i + 2 >= n then failwith "no bar" else if s.[i] = ' ' && s.[i+1] = '|' && s.[i+2] = ' ' then i else find (i + 1) in
+  let i = find 0 in (String.sub s 0 i, String.sub s (i + 3) (n - i - 3))
+let ord_case (line : string) : string =
+  let op, rest = match String.index_opt line ' ' with
+    | Some i -> String.sub line 0 i, String.sub line (i+1) (String.length line - i - 1) | None -> line, "" in
+  match op with
+  | "cmp" ->
+      let (a, b) = split_bar rest in
+      let ta = term_of_string cmp_owned a and tb = term_of_string cmp_owned b in
+      let e = teqb ta tb in
+      Printf.sprintf "o=%s b=%s eq=%s heq=%s" (cmp_str (cmp_owned ta tb)) (cmp_str (cmp_borrowed ta tb))
+        (if e then "t" else "f") (if hash_eqb ta tb then "t" else "f")
+  | _ -> failwith "bad ord op"
+
 (* ---- domain framing ---- *)
 let show_bytes (l : n list) : string =
   let n = List.length l in
@@ -178,6 +361,8 @@ let () =
     | "frag" -> frag_case
     | "pid" -> pid_case
     | "framing" -> framing_case
+    | "codec" -> codec_case
+    | "ord" -> ord_case
     | _ -> prerr_endline ("unknown domain " ^ domain); exit 2 in
   (try
     while true do
